@@ -20,6 +20,58 @@ CORRELATED = {('psf_store_read_chunk', 'pchk->chunks'): 'allocated under `pchk->
               ('psf_save_write_chunk', 'pchk->chunks'): 'allocated under `pchk->count == 0`; count and chunks are only ever set together (C13 GROW-CAP)'}
 
 
+def _alts(f, node):
+    """guard of `node` as a list of alternatives, each a dict {lvalue string: constant} of the equalities that must hold (DNF, equalities only)"""
+    alts = [dict()]
+
+    def cond_alts(cn, pol):
+        cn = f.unwrap(cn)
+        k = cn.get('k')
+        if k == 'UnaryOperator' and cn.get('op') == '!':
+            return cond_alts(f.N[cn['kids'][0]], not pol)
+        if k == 'BinaryOperator' and cn.get('op') in ('&&', '||'):
+            a, b = cond_alts(f.N[cn['kids'][0]], pol), cond_alts(f.N[cn['kids'][1]], pol)
+            conj = (cn['op'] == '&&') == pol
+            if conj:
+                out = []
+                for x in a:
+                    for y in b:
+                        if all(x.get(v, y[v]) == y[v] for v in y):
+                            out.append(dict(x, **y))
+                return out[:16] or [dict(X='#contradiction')]
+            return (a + b)[:16]
+        if k == 'BinaryOperator' and cn.get('op') in ('==', '!='):
+            l, r = f.unwrap(f.N[cn['kids'][0]]), f.unwrap(f.N[cn['kids'][1]])
+            if r.get('v') is not None and ((cn['op'] == '==') == pol):
+                return [{f.s(l): r['v']}]
+        return [dict()]
+    cur = node
+    for a in f.ancestors(node):
+        if a['k'] == 'IfStmt':
+            in_then = a.get('then') is not None and (f.within(cur, a['then']) or cur['id'] == a['then'])
+            in_else = a.get('else') is not None and (f.within(cur, a['else']) or cur['id'] == a['else'])
+            if in_then or in_else:
+                ca = cond_alts(f.N[a['cond']], in_then)
+                new = []
+                for x in alts:
+                    for y in ca:
+                        if all(x.get(v, y[v]) == y[v] for v in y):
+                            new.append(dict(x, **y))
+                alts = new[:32]
+    return alts
+
+
+def _exclusive(f, a, b):
+    A, Bb = _alts(f, a), _alts(f, b)
+    if not A or not Bb:
+        return True
+    for x in A:
+        for y in Bb:
+            if not any(v in y and y[v] != x[v] for v in x):
+                return False
+    return True
+
+
 def own_overwrite(ctx, prog, own, eff, rule='OWN-OVERWRITE'):
     api = [f.name for f in prog.lib_fns() if f.name.startswith('sf_') and f.name not in ('sf_open', 'sf_open_fd', 'sf_open_virtual') and f.file.endswith('/sndfile.c')]
     post_open = prog.reachable_from(api)
@@ -70,6 +122,22 @@ def own_overwrite(ctx, prog, own, eff, rule='OWN-OVERWRITE'):
             site = cfg.point(n)
             in_loop = any(a['k'] in ('WhileStmt', 'ForStmt', 'DoStmt') for a in f.ancestors(n))
             once = f.name not in post_open and not in_loop and f.name not in repeated
+            prior = None
+            if once:
+                # a callee invoked earlier in this very function may already have stored an allocation into the field (e.g. the header reader,
+                # before the defaults of the open function are applied): then "runs once" proves nothing, unless the two are mutually exclusive
+                for c_ in f.calls():
+                    if c_ is n or f.within(c_, n) or not (c_.get('callee') or prog.indirect_callee_slot(f, c_)):
+                        continue
+                    pc_ = cfg.point(c_)
+                    if pc_ is None or not eff.call_may_write_field(f, c_, lhs.get('rec'), fld):
+                        continue
+                    reach = (pc_[0] == site[0] and pc_[1] < site[1]) or (pc_[0] != site[0] and cfg.path_avoiding(pc_, {site[0]}, set()) is not None)
+                    if reach and not _exclusive(f, c_, n):
+                        prior = c_
+                        break
+                if prior is not None:
+                    once = False
 
             def elem_safe(eid):
                 x = f.N[eid]
@@ -126,5 +194,5 @@ def own_overwrite(ctx, prog, own, eff, rule='OWN-OVERWRITE'):
             ok = unsafe is None
             ctx.ob(rule, key, ok, f.loc(n), '%s = %s: %s' % (lv, src, ('every path frees the old value, knows the field is NULL, or the function runs once per handle (%s)' % ('open path only, not in a loop' if once else 'guards found'))
                                                             if ok else 'a path reaches this assignment with a possibly live old allocation that is neither freed nor known to be NULL: the old block is lost (%s)' % (
-                                                                'function reachable after open from the public API' if f.name in post_open else 'inside a loop of the open path, or called from one')), None)
+                                                                'function reachable after open from the public API' if f.name in post_open else ('the earlier call %s in the same function may already have stored an allocation there' % (prior.get('callee') or 'through a hook') if prior is not None else 'inside a loop of the open path, or called from one'))), None)
     ctx.require(n_inst >= 30, 'only %d allocation stores into owned fields found' % n_inst)
